@@ -84,3 +84,23 @@ pub fn run_spath(args: &[i128], cap: usize) -> Vec<i128> {
     }
     out
 }
+
+// bulk insertion into a fresh graph. line: ugraphbig_<cap> n v0 (probe)*
+// output: position of the first add whose returned index differs from its position (-1 = none), number of such adds, size, is_empty,
+// then for every probe index: contains_node, value (-1 = none)      [oracle: theorem bulk_add_fresh, Graph/BulkAdd.v]
+pub fn run_big(args: &[i128], cap: usize) -> Vec<i128> {
+    let n = args[0] as usize; let v0 = args[1] as i64;
+    let mut g: UltraGraph<i64> = ultragraph::new_with_matrix_storage(cap);
+    let (mut first, mut bad) = (-1i128, 0i128);
+    for i in 0..n {
+        let k = g.add_node(v0 + i as i64);
+        if k != i { bad += 1; if first < 0 { first = i as i128; } }
+    }
+    let mut out = vec![first, bad, g.size() as i128, g.is_empty() as i128];
+    for p in &args[2..] {
+        let p = *p as usize;
+        out.push(g.contains_node(p) as i128);
+        out.push(g.get_node(p).map(|v| *v as i128).unwrap_or(-1));
+    }
+    out
+}
